@@ -1,6 +1,6 @@
 #!/usr/bin/env python3
 """Check framework: queries -> parallel CBMC runs -> classification -> replay -> evidence."""
-import os, sys, json, time, shutil, random, re, traceback
+import os, sys, json, time, shutil, random, re, traceback, subprocess
 from concurrent.futures import ThreadPoolExecutor
 import pipeline as pl
 
@@ -87,9 +87,17 @@ class Check:
             return 2
 
         # 2. solve
+        def squeeze(path):      # JSON traces of the witness run to tens of MB per query: keep them compressed
+            try:
+                if os.path.getsize(path) > (1 << 20):
+                    subprocess.run(['gzip', '-f', path], check=False)
+            except OSError:
+                pass
+
         def solve(q):
             cmd = pl.cbmc_cmd(q.unit.cfile, q.entry, q.unwind, q.unwindset + pl.loop_unwindset(q.unit.cfile, q.entry, q.loop_bounds), q.flags + (['--trace'] if q.trace else []), q.object_bits, q.checks)
             res = pl.run_cbmc(cmd, q.timeout or cap_t, q.mem_gb or cap_m, log=os.path.join(wd, q.name + '.cbmc.log'))
+            squeeze(os.path.join(wd, q.name + '.cbmc.log'))
             res['cmd'] = ' '.join(pl.sh_quote(c) for c in cmd)
             # A per-loop bound is an optimisation keyed on inlining decisions.  If ONLY unwinding assertions fail, the bound may simply
             # have landed on another loop (different inlining after a source change): decide again with the relaxed global bound.
@@ -97,6 +105,7 @@ class Check:
             if res['status'] == 'done' and bad and all((p['desc'] or '').startswith('unwinding assertion') for p in bad) and (q.loop_bounds or q.unwindset):
                 cmd2 = pl.cbmc_cmd(q.unit.cfile, q.entry, max(q.unwind, 12), [], q.flags + ['--trace'], q.object_bits, q.checks)
                 res2 = pl.run_cbmc(cmd2, q.timeout or cap_t, q.mem_gb or cap_m, log=os.path.join(wd, q.name + '.relaxed.cbmc.log'))
+                squeeze(os.path.join(wd, q.name + '.relaxed.cbmc.log'))
                 res2['cmd'] = ' '.join(pl.sh_quote(c) for c in cmd2)
                 res2['relaxed_bounds'] = True
                 return q, res2
